@@ -188,6 +188,22 @@ pub fn check(ctx: &mut Ctx) {
             mal.push(TimeCase { now: past_now, to_attr: format!("to=\"{to}\""), offset: off.to_string(), expect_ready: false, why: "malformed to and malformed offset".into() });
         }
     }
+    // the two strings are configuration and data of different origin: a piece of one must not complete the other
+    // (a well-formed "<to> <offset>" text cut anywhere but between the two)
+    for to in ["2020-01-01 00:00:00", "1999-12-31 23:59:59"] {
+        for off in ["+09:00", "+0900", "-08:00", "-0330", "+00:00", "+14:00"] {
+            for sep in [" ", ""] {
+                for k in 1..off.len() {
+                    mal.push(TimeCase { now: past_now, to_attr: format!("to=\"{to}{sep}{}\"", &off[..k]), offset: off[k..].to_string(), expect_ready: false, why: "to carries the beginning of a zone, the offset string is only the rest of one (both unparseable)".into() });
+                }
+            }
+            for k in 1..to.len() {
+                for sep in [" ", ""] {
+                    mal.push(TimeCase { now: past_now, to_attr: format!("to=\"{}\"", &to[..k]), offset: format!("{}{sep}{off}", &to[k..]), expect_ready: false, why: "to is cut short, the offset string carries the rest of it (both unparseable)".into() });
+                }
+            }
+        }
+    }
     // sanity of the probe itself: the same well-formed values are ready with a valid offset
     mal.push(TimeCase { now: past_now, to_attr: "to=\"2000-01-01 00:00:00\"".into(), offset: "+00:00".into(), expect_ready: true, why: "control: well-formed past date".into() });
     let n_mal = mal.len();
